@@ -955,3 +955,41 @@ func (p *Pkg) Apply(root interface{}, a *Atom) error {
 	}
 	return nil
 }
+
+// AtomBounds returns the data-tree path lengths at which the atom's steps end: only these
+// prefixes of a.Path name a node of the generated struct tree (with path compression a step may
+// span several path elements, e.g. "interfaces/interface" or "config/name").
+func (p *Pkg) AtomBounds(a *Atom) []int {
+	cur := p.RootType
+	n := 0
+	var out []int
+	for _, s := range a.Steps {
+		if cur.Kind() == reflect.Ptr {
+			cur = cur.Elem()
+		}
+		f, ok := cur.FieldByName(s.Field)
+		if !ok {
+			break
+		}
+		alts := tagPaths(f)
+		if alts == nil {
+			break
+		}
+		n += len(alts[0])
+		out = append(out, n)
+		switch KindOfField(f.Type) {
+		case FContainer:
+			cur = f.Type
+		case FKeyedList:
+			cur = f.Type.Elem()
+		case FOrderedList:
+			m, _ := f.Type.MethodByName("Values")
+			cur = m.Type.Out(0).Elem()
+		case FUnkeyedList:
+			cur = f.Type.Elem()
+		default:
+			return out
+		}
+	}
+	return out
+}
